@@ -81,7 +81,9 @@ impl Coverage {
         *self.cells.entry(key).or_insert(0) += 1;
     }
 
-    pub fn record(&mut self, op: &Op, obs: &Observed, _snap_after: &Snapshot) {
+    pub fn record(&mut self, op: &Op, obs: &Observed, _snap_after: &Snapshot, before: &std::collections::HashMap<u32, (u8, bool, bool)>, phase_before: u8) {
+        let col = |i: u32| before.get(&i).map(|c| (c.0 as char).to_string()).unwrap_or_else(|| "new".into());
+        let ph = phase_before as char;
         let kind = op_kind(op);
         self.bump(format!("op×phase|{}|{}", kind, obs.phase_before.name()));
         self.seq_phases.insert(obs.phase_before.name());
@@ -104,6 +106,18 @@ impl Coverage {
                 self.bump(format!("query×phase×result|{}|{}|{}", kind, obs.phase_before.name(), obs.ret));
             }
             Op::Enter(_) => self.seq_callbacks += 1,
+            Op::Barrier(b) => {
+                let (p, c) = match b {
+                    Barrier::Bb(p, c) => (Some(*p), *c),
+                    Barrier::Bbw(p, c) => (Some(*p), Some(*c)),
+                    Barrier::Fb(p, c) => (*p, Some(*c)),
+                    Barrier::Fbw(p, c) => (*p, Some(*c)),
+                };
+                self.bump(format!("barrier×phase×parent×child|{}|{}|{}|{}", kind, ph, p.map(col).unwrap_or("-".into()), c.map(col).unwrap_or("-".into())));
+            }
+            Op::Store { p, v, .. } => {
+                self.bump(format!("store×phase×parent×child|{}|{}|{}|{}", kind, ph, col(*p), v.map(|x| col(x.id())).unwrap_or("-".into())));
+            }
             _ => {}
         }
     }
